@@ -300,12 +300,18 @@ type bCase struct {
 	Addrs   []int        `json:"addrs"`
 	Seed    uint64       `json:"seed"`
 	Lenient bool         `json:"lenient"`
+	// Unnamed: the fields are added without a name (Field.Name is optional; its zero value is the empty string)
+	Unnamed bool `json:"unnamed,omitempty"`
 }
 
 func runBuilder(c bCase) harness.Result {
 	b := modbus.NewRequestBuilder("dev:502", 4)
 	for i, a := range c.Addrs {
-		b.Add(b.Coil(uint16(a)).Name(fmt.Sprintf("c%d", i)))
+		if c.Unnamed {
+			b.Add(b.Coil(uint16(a)))
+		} else {
+			b.Add(b.Coil(uint16(a)).Name(fmt.Sprintf("c%d", i)))
+		}
 	}
 	var reqs []modbus.BuilderRequest
 	var err error
@@ -359,7 +365,7 @@ func runBuilder(c bCase) harness.Result {
 			multi = true
 		}
 		for _, v := range fv {
-			seen[v.Field.Name]++
+			seen[fmt.Sprintf("%s@%d", v.Field.Name, v.Field.Address)]++
 			got, ok := v.Value.(bool)
 			if !ok || v.Error != nil {
 				return harness.Fail("field %s: value %v (%T) error %v", v.Field.Name, v.Value, v.Value, v.Error)
@@ -448,9 +454,17 @@ func runBuilder(c bCase) harness.Result {
 			o = append(o, obs{int(v.Field.Address), got, dev.Coil(int(c.FC)-1, int(v.Field.Address)), revBit(payload, i)})
 		}
 	}
-	for i := range c.Addrs {
-		if seen[fmt.Sprintf("c%d", i)] != 1 {
-			return harness.Fail("field c%d reported %d times", i, seen[fmt.Sprintf("c%d", i)])
+	wantSeen := map[string]int{}
+	for i, a := range c.Addrs {
+		name := fmt.Sprintf("c%d", i)
+		if c.Unnamed {
+			name = ""
+		}
+		wantSeen[fmt.Sprintf("%s@%d", name, uint16(a))]++
+	}
+	for k, n := range wantSeen {
+		if seen[k] != n {
+			return harness.Fail("field %s defined %d time(s), reported %d time(s)", k, n, seen[k])
 		}
 	}
 	res := verdict(fmt.Sprintf("builder fc%d %s fields at %v", c.FC, c.Framing, c.Addrs), o, []string{"builder", fmt.Sprintf("requests:%d", len(reqs))})
@@ -496,6 +510,7 @@ func genBuilder(t *rapid.T) bCase {
 			c.Addrs[i] = base + rapid.IntRange(0, 2100).Draw(t, "off_any")
 		}
 	}
+	c.Unnamed = rapid.IntRange(0, 2).Draw(t, "unnamed") == 0
 	return c
 }
 
